@@ -233,10 +233,54 @@ func loadCorpus() {
 				repoDocs = append(repoDocs, parts[i])
 			}
 		}
+		repoDocs = append(repoDocs, exoticDocs...)
+		for _, p := range []string{"- a\n", "> a\n", "a\n\n", "1. a\n", "- a\n  - b\n", "- a\n\n", "| a |\n", "a[^1]\n\n[^1]: n\n\n"} {
+			for _, n := range []int{2, 17, 60, 61, 62, 63, 64, 65, 123, 124, 125, 127, 128, 129, 255, 256, 257} {
+				repoDocs = append(repoDocs, strings.Repeat(p, n)+"- x\n\n- y\n")
+			}
+		}
 		if len(specExamples) < 600 || len(repoDocs) < 700 {
 			infra("corpus too small: %d spec examples, %d documents", len(specExamples), len(repoDocs))
 		}
 	})
+}
+
+// exoticDocs: hand-written documents for constructs the repository's examples do not contain
+// (most of them were added after a seeded change slipped through because no workload
+// document had the construct). They join repoDocs and are therefore mutated and spliced too.
+var exoticDocs = []string{
+	"# h {id=\"a<b\" class=\"c&d\" data-x='y\"z'}\n\nh {.a Class=1 cLASS=null}\n===\n\n## t {#i .c k=v title=\"q\"}\n",
+	"# a {ID=x #y Id=\"z\"}\n\n## b {class=1 .c}\n\n### c {style=\"x:y\" lang=en}\n\n#### d {.a .b .a}\n",
+	"<DIV>\nx\n</DIV>\n\n<Table>\n<TR><TD>a</TD></TR>\n</Table>\n\n<sCript>\ny\n</sCript>\n\n<Pre>\nz\n</Pre>\n\ntext <Span CLASS=\"x\">i</Span> <BR/>\n",
+	"&#x100000041; &#4294967361; &#x0; &#xD800; &#1114112; &#x10FFFF; &#0000065; [a](/p&#8364;q&#x20AC; \"t&#8364;\") ![i](/i&#233;.png) [b](&#65;bc) <http://a.b/&#233;>\n\n[r]: &#x41;bc '&#66;'\n\n[r]\n",
+	"| a | b |\n|---|:-:|\n| `x\\|y\\|z` | *e\\|f* |\n| 1 | 2 ||\n| \\| | `\\|\\|` |\n|\n| only |\n",
+	"| h |\n|--|\n| [l](/u \"t\\|t\") ![i](/s) |\n\n|a|b|\n|-|-|\n|`c`|~~d~~|\n\nx | y\n--|--\n1 | 2\n",
+	"first[^x] and again[^x] and[^z]\n\n[^x]: one\n[^y]: never\n[^z]: two[^x]\n\n> [^q]: in quote\n\n- [^l]: in list[^q]\n",
+	"a[^1][^2][^1]\n\n[^1]: x\n\n    y\n\n[^2]: ![i[^1]](/u)\n\n[^3]: z[^4]\n\n[^4]: w\n",
+	"1.\n   - - -\n\n*\n  +\n    a\n\n-\n  foo\n-\n\n  bar\n\n7)\n   7) x\n",
+	"- a\n\n  Foo\n  ---\n- b\n\n1. x\n\n   y\n   ===\n\n- p\n\n      code\n- q\n",
+	"> `foo\n> bar` and [l\n> m](/u 't\n> u') <b a='x\n> y'>\n\n- `a\n  b` [x\n  y]\n\n[x y]: /z\n",
+	">```\n```\nfoo\n\n- ~~~\n- ~~~\n  bar\n\n> <!--\n<!--\n-->\n\n1. <div>\n2. <div>\n   x\n",
+	"`a`  \nb *c*  \nd [e](/f)  \ng <h>  \ni ![j](/k)  \nl\\\n\\\tm \\ n\n",
+	"\"open 'single -- and --- dash... <<q>> \"close\"\n\n'tis \"a\" 'b' 1'2\" x--y a...b\n",
+	"www.a.b/c_d http://a.b/(x) a@b.c ftp://f.g/h https://x.y/z?q=1&r=2, (www.p.q) mailto:m@n.o x.y@z\n\n<www.a.b> www.a.b/<c>\n",
+	"- [ ]\n- [X] x\n- [x]y\n1. [ ] o\n   - [ ] n\n\n* [ ] [l](/u)\n+ [x] `c`\n",
+	"t1\nt2\n: d1\n\n  p\n: d2\n\nt3\n\n: d3\n:d4\n\n> t\n> : d\n\n- t\n  : d\n",
+	"日本語\\ \nの *文*\n章。a\nb，\nc\\ d\n\n全角　空白\n",
+	"~~a~~ ~b~ ~~~c~~~ ~~d ~e~ f~~ a~~b~~c ~~ g ~~\n",
+	"*a **b** _c_* __d *e* f__ ***g*** *__h__* _**i**_ a*b*c a_b_c *(j)* *\"k\"* **l*m*n**\n",
+	"[a [b] c](/u) [![i](/s)](/u) [x [y](/z) w](/v) [a](<b c> 'd') [e](f (g)) [h]( i ) [j](k\\)l) [m](n(o)p)\n",
+	"[A]: /1\n[a]: /2\n[ a ]: /3\n[ẞ]: /4\n\n[a] [A] [ a ] [SS] [ss] [ẞ] [a][] [x][A]\n",
+	"    code\n\n\tcode2\n  \tcode3\n\n- a\n\n\tb\n\n>\tq\n\n-\tli\n\n1.\tol\n",
+	"# \n#\n## \n\n===\n\n---\na\n---\n\n***\n* * *\n_ _ _\n\n+++\n",
+	"```\n\n```\n\n~~~ a b\n~~~\n\n```` x\n```\n````\n\n   ```\n   x\n  ```\n\n```\nunclosed\n",
+	"<!-- c -->\n\n<?p?>\n\n<!D>\n\n<![CDATA[x]]>\n\n<a\nb>\n\n</c>\n\n<d e=\"f\" g='h' i=j k>\n",
+	"a\\\nb\\\\\nc\\\\\\\nd  \ne   \nf \ng\n",
+	"\\!\\\"\\#\\$\\%\\&\\'\\(\\)\\*\\+\\,\\-\\.\\/\\:\\;\\<\\=\\>\\?\\@\\[\\\\\\]\\^\\_\\`\\{\\|\\}\\~ \\a \\1 \\ \n",
+	"&amp; &AMP; &Aacute; &aacute; &nbsp; &ThickSpace; &nosuch; &amp &#; &#x; &#xg; &#12345678; &#x1234567;\n",
+	"[^a]\n\n[^a]:\n    x\n\n[^b]: y\n[^a]: dup\n\nz[^b][^B]\n",
+	"> - a\n>\n>   b\n> - c\n>\n> 1. d\n>\n>    > e\n>    f\n",
+	"- a\n - b\n  - c\n   - d\n    - e\n\n1. a\n 2. b\n  3. c\n   4. d\n    5. e\n",
 }
 
 // ---------------------------------------------------------------------------------
@@ -247,7 +291,7 @@ var mutTokens = []string{
 	"*", "**", "_", "__", "~", "~~", "`", "``", "```", "~~~", "#", "## ", "###### ", "=", "===", "-", "--", "---", "- ", "* ", "+ ", "1. ", "1) ", "10. ", "> ", ">",
 	"[", "]", "(", ")", "[^", "[^1]", "[^1]: ", "[a]: /u \"t\"\n", "[a]", "[a][]", "[x](y)", "![", "](", "<", ">", "</", "<!--", "-->", "<?", "?>", "<![CDATA[", "]]>", "<!A", "<div>", "</div>", "<script>", "<pre>", "<a href=\"x\">",
 	"&", "&amp;", "&#", "&#x", "&#0;", "&#x110000;", "&copy;", "&colon;", "&Tab;", ";", "\\", "\\\\", "\\*", "\\\n", "  \n", "|", "| a | b |\n", "|---|---|\n", "|:-:|", ":", ": def\n", "\"", "'", "...", "--", "<<", ">>",
-	"{", "}", "{#id}", "{.c}", "{k=v}", "{id=1}", "{k=\"v\\", "http://a.b/c", "www.a.b", "a@b.c", "javascript:", "[ ] ", "[x] ", "a", "b", "foo", "Bar", "x y", "1", "0",
+	"{", "}", "{#id}", "{.c}", "{k=v}", "{id=1}", "{k=\"v\\", "{id=\"a<\"}", "{class=\"b&\"}", "{Class=1 .c}", " {.x}\n===\n", "<DIV>", "</DIV>", "<Table>", "&#x100000041;", "&#4294967361;", "`x\\|y\\|z`", "\\|", "||\n", "[^x][^x]", "-\n  ", "1.\n   ", "\\\t", "  \n", "`a\n", "\n---\n", "\n===\n", "[l\nm]", "(/u 't\nu')", "http://a.b/c", "www.a.b", "a@b.c", "javascript:", "[ ] ", "[x] ", "a", "b", "foo", "Bar", "x y", "1", "0",
 }
 
 type docGen struct {
